@@ -106,7 +106,19 @@ def _obs_array(ra, other_dt):
     o["iter"] = guarded(lambda: [np.asarray(r) for r in ra])
     o["tolist"] = guarded(lambda: canon(RaggedArray(ra.ravel(), ra._shape)))
     o["ravel"] = guarded(lambda: ra.ravel())
-    o["astype"] = guarded(lambda: ra.astype(other_dt))
+    def astype_other():
+        # a converted copy (to another dtype AND to the dtype the array already has) is a new array: writing into it leaves the
+        # source as it was
+        conv = ra.astype(other_dt)
+        for c in (conv, ra.astype(ra.dtype), ra.astype(str(ra.dtype))):
+            keep = np.asarray(ra.ravel()).copy()
+            if c.size:
+                c.ravel()[...] = c.ravel()[::-1].copy()
+                c.fill(np.zeros(1, dtype=c.dtype)[0])
+            if np.asarray(ra.ravel()).tobytes() != keep.tobytes():
+                raise AssertionError("astype returned an array that shares its cells with the source")
+        return ra.astype(other_dt)
+    o["astype"] = guarded(astype_other)
     o["to_numpy"] = guarded(lambda: ra.to_numpy_array())
     def sl():
         fn = os.path.join(_scratch, "x")
